@@ -1472,7 +1472,15 @@ def owmr_system(num_retailers, node_order_in_system=None, node_order_in_lists=No
 	elif isinstance(local_kwargs['demand_source'], DemandSource):
 		# demand_source provided as singleton; convert to dict.
 		local_kwargs['demand_source'] = {n: kwargs['demand_source'] for n in node_order_in_system[1:]}
-	local_kwargs['demand_source'][node_order_in_system[0]] = DemandSource()
+	elif isinstance(local_kwargs['demand_source'], list):
+		# demand_source provided as list (in the order of node_order_in_lists, or of node_order_in_system if that
+		# is not provided); convert to dict keyed by node index, so that the entry set below is the warehouse's
+		# and not whatever happens to be in the list slot whose position equals the warehouse's index.
+		list_order = node_order_in_lists if node_order_in_lists is not None else node_order_in_system
+		if len(local_kwargs['demand_source']) == len(list_order):
+			local_kwargs['demand_source'] = dict(zip(list_order, local_kwargs['demand_source']))
+	if isinstance(local_kwargs['demand_source'], dict):
+		local_kwargs['demand_source'][node_order_in_system[0]] = DemandSource()
 
 	# Determine node_order_in_lists.
 	if node_order_in_lists is None:
@@ -1580,9 +1588,17 @@ def mwor_system(num_warehouses, node_order_in_system=None, node_order_in_lists=N
 		local_kwargs['demand_source'] = {n: DemandSource() for n in node_order_in_system[0:-1]}
 		local_kwargs['demand_source'].update({node_order_in_system[-1]: kwargs['demand_source']})
 	else:
-		# demand_source provided as list; overwrite all except retailer node.
-		for n in node_order_in_system[0:-1]:
-			local_kwargs['demand_source'][n] = DemandSource()
+		if isinstance(local_kwargs['demand_source'], list):
+			# demand_source provided as list (in the order of node_order_in_lists, or of node_order_in_system if that
+			# is not provided); convert to dict keyed by node index, so that the entries overwritten below are the
+			# warehouses' and not the list slots whose positions equal the warehouses' indices.
+			list_order = node_order_in_lists if node_order_in_lists is not None else node_order_in_system
+			if len(local_kwargs['demand_source']) == len(list_order):
+				local_kwargs['demand_source'] = dict(zip(list_order, local_kwargs['demand_source']))
+		# demand_source provided as dict or list; overwrite all except retailer node.
+		if isinstance(local_kwargs['demand_source'], dict):
+			for n in node_order_in_system[0:-1]:
+				local_kwargs['demand_source'][n] = DemandSource()
 
 	# Determine node_order_in_lists.
 	if node_order_in_lists is None:
